@@ -158,7 +158,7 @@ func c08(tier string) {
 	}
 	ctx := lib.NewCtx("C08", tier)
 	ctx.Level = "fault_enumeration"
-	ctx.Rule = "(i) by name, complete matrix: 5 built-ins x 15 embedding positions (validation rego / regoModule / code+message form / constraint-level / inside nested / inside atLeast / under not, and, or, if, then, else / rego_extensions rule / helper function in rego_extensions called from an innocuous rego / second validation on another level) x 10 call syntaxes (statement, :=, =, array/set/object comprehension, argument of another call, negated, next to identifiers named like future keywords) x debug flag {false,true}: CompileProfile and Validate must fail and no event at or after InputDataParsingStart may be seen; every (position, syntax) cell is first shown to compile with a harmless call; " +
+	ctx.Rule = "(i) by name, complete matrix: 5 built-ins x 15 embedding positions (validation rego / regoModule / code+message form / constraint-level / inside nested / inside atLeast / under not, and, or, if, then, else / rego_extensions rule / helper function in rego_extensions called from an innocuous rego / second validation on another level) x 10 call syntaxes (statement, :=, =, array/set/object comprehension, argument of another call, negated, next to identifiers named like future keywords) x debug flag {false,true}: CompileProfile and Validate must fail and no evaluation event (OpaValidationStart or later) may be seen; every (position, syntax) cell is first shown to compile with a harmless call; " +
 		"(ii) by behaviour: every built-in registered in the linked OPA (ast.Builtins) gets a type-correct call synthesised from its declaration; each profile that compiles is compiled+evaluated in a child process under strace -f -e trace=socket,connect,sendto,sendmsg and must issue no AF_INET/AF_INET6 system call (controls: a profile without Rego shows none, a resolver call shows some); " +
 		"non-trivial & distinct = matrix cell / built-in actually judged"
 	ctx.Assumptions = []string{"host inspection and compiler re-entry are not visible as system calls: opa.runtime, rego.parse_module and walk are decided by name only", "strace must work in the sandbox (checked by the positive control, otherwise part (ii) is inconclusive)"}
@@ -250,7 +250,7 @@ func c08(tier string) {
 					ctx.Violation("unsafe-builtin-evaluated", fmt.Sprintf("Validate(debug=%v) returned a report for a profile calling %s (%s, %s)", dbg, b.name, c.pos, c.syn), base)
 				}
 				for _, e := range evs {
-					if e.EventType == events.InputDataParsingStart || e.EventType == events.OpaValidationStart || e.EventType == events.BuildReportStart {
+					if e.EventType == events.OpaValidationStart || e.EventType == events.OpaValidationDone || e.EventType == events.BuildReportStart {
 						ctx.Violation("evaluation-started", fmt.Sprintf("profile calling %s (%s, %s): pipeline went on to %s", b.name, c.pos, c.syn, eventName(e.EventType)), base)
 						break
 					}
